@@ -63,6 +63,35 @@ def handleFmap (s : FState) (ws : List String) : Option (FState × String) :=
       let k ← mapKind? kind
       let (f, r) := s.forest.entryOrInsert k (← node a) (← entryValue? k key val)
       fin f (showRes r)
+  | ["entry_or_insert_with", kind, a, key, val] => do
+      -- answer: did the closure run, and the value behind the returned `&mut V`
+      let k ← mapKind? kind
+      let h ← node a
+      let d ← entryValue? k key val
+      let (f, r, called) := s.forest.entryOrInsertWith k h (Forest.entryKey d) (fun _ => d)
+      match r with
+      | .ok =>
+        let seen := match f.mapGet k h (Forest.entryKey d) with | some v => showPayload v | none => "?"
+        fin f s!"ok {if called then 1 else 0} {seen}"
+      | r => fin f (showRes r)
+  | ["occupied_into_mut", kind, a, key, val] => do
+      let k ← mapKind? kind
+      let (f, r, found) := s.forest.occupiedIntoMutSet k (← node a) (← key.toNat?) (← entryValue? k key val)
+      match r with
+      | .ok => fin f (if found then "ok 1" else "ok 0")
+      | r => fin f (showRes r)
+  | ["entry_peek", kind, a, key] => do
+      -- `Entry::key`, then `OccupiedEntry::key` / `get` / `get_mut` (each `…(self.key).unwrap()`) or `VacantEntry::key`
+      let k ← mapKind? kind
+      let h ← node a
+      let key ← key.toNat?
+      if !s.forest.isElement h then some (s, "panic") else
+      match s.forest.mapEntry k h key with
+      | .occupied key' =>
+        (match s.forest.occGetMut k h key', s.forest.mapGet k h key' with
+         | .ok, some v => some (s, s!"occ {key} {key'} {showPayload v} {showPayload v}")
+         | _, _ => some (s, "panic"))
+      | .vacant key' => some (s, s!"vac {key} {key'}")
   | ["entry_or_default", a, key] => do
       let (f, r) := s.forest.entryOrDefault (← node a) (← key.toNat?)
       fin f (showRes r)
